@@ -9,7 +9,7 @@ from __future__ import annotations
 import ast
 import re
 
-from ..core import Rule, AnalysisError, C_LIB
+from ..core import Rule, AnalysisError, C_LIB, norm
 from .. import cfront, clib, cfg as _cfg, pyfront, pyutil
 
 LIB = C_LIB
@@ -18,10 +18,15 @@ NAMING = ["digital_rf_get_subdir_file", "digital_rf_get_timestamp_floor", "digit
           "digital_rf_get_unix_time_rational", "digital_rf_get_time_parts"]
 MATH = {"floor", "ceil", "floorl", "ceill", "fmod", "fmodl", "round", "roundl", "lround", "llround", "trunc", "truncl",
         "floorf", "ceilf", "rint", "nearbyint", "pow", "powl", "modf", "modfl", "ldexp", "frexp"}
-ALLOWED_CALLS = set(NAMING) | {"gmtime", "snprintf", "fprintf"}
+ALLOWED_CALLS = set(NAMING) | {"snprintf", "fprintf"}
 
 
-IMPURE_CALLS = ("time", "gettimeofday", "clock_gettime", "rand", "random", "getenv")
+# the clock, the environment - and the C library's calendar functions: gmtime / localtime hand back one static buffer shared by
+# all threads and consult the TZ database (a "right/..." zone subtracts leap seconds even for gmtime), the _r variants are
+# reentrant but still read TZ.  gmtime was on the allow-list above until the second defect hunt (F48).
+IMPURE_CALLS = ("time", "gettimeofday", "clock_gettime", "rand", "random", "getenv",
+                "gmtime", "localtime", "gmtime_r", "localtime_r", "mktime", "timegm", "ctime", "asctime", "strftime")
+PY_IMPURE_TIME = ("fromtimestamp", "utcfromtimestamp", "gmtime", "localtime", "mktime", "ctime")
 
 
 def pure_helper(tu, name, seen=None):
@@ -233,6 +238,28 @@ def r2_pure_function(repo=None):
             if len(st) != 1 and where == {"digital_rf_create_write_hdf5"}:
                 r.violation(LIB, "digital_rf_create_write_hdf5", "%d stores to %s" % (len(st), f),
                             "configuration field stored more than once", line=st[0][1].line)
+    # the Python side builds the same names (reader: which sub-directories to look in; metadata writer / reader): a sub-directory
+    # timestamp is turned into text by arithmetic on the epoch, not by the platform's gmtime (datetime.fromtimestamp(ts, tz=utc) goes
+    # through it)
+    import ast as _ast
+    from .. import pyfront
+    for mod_name in ("digital_rf_hdf5", "digital_metadata"):
+        pm = pyfront.mod(mod_name, repo)
+        for q, f in pm.functions.items():
+            if "<locals>" in q:
+                continue
+            fmts = [c for c in pyfront.walk_no_nested(f) if isinstance(c, _ast.Call) and isinstance(c.func, _ast.Attribute) and c.func.attr == "strftime"
+                    and c.args and isinstance(pyfront.const(c.args[0]), str) and "%Y-%m-%dT%H-%M-%S" in pyfront.const(c.args[0])]
+            if not fmts:
+                continue
+            badc = [c for c in pyfront.walk_no_nested(f) if isinstance(c, _ast.Call) and isinstance(c.func, _ast.Attribute) and c.func.attr in PY_IMPURE_TIME]
+            site = "%s:%s %s" % (pm.rel, fmts[0].lineno, q)
+            if badc:
+                r.violation(pm.rel, q, norm(_ast.unparse(badc[0]))[:80], "the sub-directory name is rendered through the platform's "
+                            "gmtime (%s): under a leap-second (`right/...`) time zone it comes out 27 s early, so names depend on the "
+                            "process environment and data written on one host cannot be found from another" % badc[0].func.attr, line=badc[0].lineno)
+            else:
+                r.ok(site, "sub-directory names are rendered from epoch arithmetic (no fromtimestamp / gmtime)")
     r.guard(10)
     return r
 
